@@ -28,6 +28,7 @@ fn main() {
         "C08" => rtcmon::engines::sdp_neg::run(&args),
         "C17" => rtcmon::engines::lifecycle::run(&args),
         "C07" => rtcmon::engines::totality::run(&args),
+        "C10" => rtcmon::engines::lattice::run(&args),
         other => {
             eprintln!("unknown property/engine {other}");
             2
